@@ -4,7 +4,7 @@ Literal model of `bidirectional_signed_dijkstra` (include/parmcb/detail/signed_d
 computes — `best_path` after the final limit test; the reconstruction of the edge set and the "duplicate edge, discard
 cycle" test are not part of this model.  The search runs on the signed graph given as adjacency lists
 `adj : Array (List (node × weight))` (`sgAdjHidden`); the two d-ary heaps are replaced by "a queued node of minimum
-label, chosen by `pick` among the candidates" — the theorems hold for every `pick`.  Core Lean only.
+label, chosen by `pick` (indexed by the step) among the candidates" — the theorems hold for every `pick`.  Core Lean only.
 -/
 namespace Parmcb
 
@@ -69,9 +69,14 @@ def biScan (limit : Option Int) (du : Int) : List (Nat × Int) → BiState → B
         else st.best
       biScan limit du r { st with f := f', best := best' }
 
+/-- the heap's tie-breaking oracle: `pick i l` chooses among the candidates `l` (the queued nodes of minimum label) in the
+loop iteration with step index `i` (= the remaining fuel of that iteration).  A real heap's choice depends on its history,
+not on the candidate list alone; indexing by the step makes every such behaviour an instance. -/
+abbrev Pick := Nat → List Nat → Nat
+
 /-- the `while (true)` loop; `none` = "reached limit" exit (`return {}, inf, false` from inside the loop);
 one unit of fuel per iteration -/
-def biLoop (adj : Array (List (Nat × Int))) (pick : List Nat → Nat) (limit : Option Int) :
+def biLoop (adj : Array (List (Nat × Int))) (pick : Pick) (limit : Option Int) :
     Nat → BiState → Option (Option Int)
   | 0, st => some st.best
   | fuel + 1, st =>
@@ -82,7 +87,7 @@ def biLoop (adj : Array (List (Nat × Int))) (pick : List Nat → Nat) (limit : 
        | _, _, _ => false)
     if stop then some st.best
     else
-      let u := pick st.f.minNodes
+      let u := pick fuel st.f.minNodes
       match st.f.dist[u]! with
       | none => some st.best                       -- unreachable: a queued node always carries a label
       | some du =>
@@ -94,14 +99,14 @@ def biLoop (adj : Array (List (Nat × Int))) (pick : List Nat → Nat) (limit : 
 
 /-- the value `bidirectional_signed_dijkstra` computes for `s ≠ t`: `some w` = a path of weight `w` was found
 (before the duplicate-edge test), `none` = not found -/
-def biDijkstra (adj : Array (List (Nat × Int))) (pick : List Nat → Nat) (limit : Option Int) (s t : Nat) : Option Int :=
+def biDijkstra (adj : Array (List (Nat × Int))) (pick : Pick) (limit : Option Int) (s t : Nat) : Option Int :=
   match biLoop adj pick limit (2 * adj.size + 2) { f := Frontier.init adj.size s, b := Frontier.init adj.size t, best := none } with
   | some (some b) => if (match limit with | some l => !(b < l) | none => false) then none else some b
   | _ => none
 
 /-- a concrete heap: the first candidate -/
-def pickHead (l : List Nat) : Nat := l.headD 0
+def pickHead : Pick := fun _ l => l.headD 0
 /-- another one: the last candidate -/
-def pickLast (l : List Nat) : Nat := l.getLastD 0
+def pickLast : Pick := fun _ l => l.getLastD 0
 
 end Parmcb
